@@ -39,6 +39,11 @@ var (
 	occ      map[string]int64
 	tearPath string
 
+	afterK   int64
+	afterKey string
+	afterDir string
+	afterOcc = map[string]int64{}
+
 	plan2K    int64
 	plan2Key  string
 	pauseDir2 string
@@ -52,6 +57,16 @@ func Count() int64 { return count.Load() }
 
 func loadPlan() {
 	p := os.Getenv("VOS_PLAN")
+	if pa := os.Getenv("VOS_PAUSE_AFTER"); pa != "" {
+		if parts := strings.SplitN(pa, ":", 2); len(parts) == 2 {
+			afterK, _ = strconv.ParseInt(parts[0], 10, 64)
+			afterKey = parts[1]
+			afterDir = os.Getenv("VOS_PAUSE_DIR_AFTER")
+			if normDir == "" {
+				normDir = os.Getenv("VOS_NORM")
+			}
+		}
+	}
 	if t := os.Getenv("VOS_TRACE"); t != "" { // tracing can be combined with a crash/fail plan
 		traceF, _ = os.OpenFile(t, os.O_WRONLY|os.O_CREATE|os.O_APPEND, 0o644)
 	}
@@ -108,6 +123,33 @@ func loadPlan() {
 			if e, err := strconv.Atoi(parts[1]); err == nil {
 				planErr = syscall.Errno(e)
 			}
+		}
+	}
+}
+
+// post is called right after a link / rename happened. VOS_PAUSE_AFTER="i:<op> <path>" (with VOS_PAUSE_DIR_AFTER)
+// stops the calling thread there: the file is in place, whatever the process does with it next (e.g. read it) has
+// not happened yet. This is the one place where a pause point is needed between a mutating operation and a read.
+func post(op, path string) {
+	planOnce.Do(loadPlan)
+	if afterKey == "" {
+		return
+	}
+	key := op + " " + path
+	if normDir != "" {
+		key = strings.ReplaceAll(key, normDir, "@")
+	}
+	traceMu.Lock()
+	afterOcc[key]++
+	hit := key == afterKey && afterOcc[key] == afterK
+	traceMu.Unlock()
+	if hit {
+		os.WriteFile(afterDir+"/reached", []byte(fmt.Sprintf("after %s %s\n", op, path)), 0o644)
+		for {
+			if _, err := os.Stat(afterDir + "/go"); err == nil {
+				break
+			}
+			time.Sleep(2 * time.Millisecond)
 		}
 	}
 }
@@ -240,14 +282,18 @@ func Rename(oldpath, newpath string) error {
 	if err := step("rename", oldpath+" -> "+newpath); err != nil {
 		return &os.LinkError{Op: "rename", Old: oldpath, New: newpath, Err: err}
 	}
-	return os.Rename(oldpath, newpath)
+	err := os.Rename(oldpath, newpath)
+	post("rename", oldpath+" -> "+newpath)
+	return err
 }
 
 func Link(oldname, newname string) error {
 	if err := step("link", oldname+" -> "+newname); err != nil {
 		return &os.LinkError{Op: "link", Old: oldname, New: newname, Err: err}
 	}
-	return os.Link(oldname, newname)
+	err := os.Link(oldname, newname)
+	post("link", oldname+" -> "+newname)
+	return err
 }
 
 func Symlink(oldname, newname string) error {
